@@ -18,27 +18,26 @@ RULE = ('(a) byte strings = first-two-line combinations of ~40 cookie / non-cook
         'thorough, random up to 12) and corpus texts; contract on split_lines: equals a reference splitter on \\n|\\r\\n|\\r for both '
         'keepends, never empty, joins back; line count equals module.end_pos line. non-trivial = distinct bytes with a cookie or '
         'BOM / distinct string with >= 2 different separators')
-ASSUMPTIONS = ['tokenize.detect_encoding of the running CPython is the reference where it succeeds and the cookie lines end in \\n or \\r\\n '
-               '(it reads lines with readline(), so a lone \\r inside the first two lines is counted, not judged)']
+ASSUMPTIONS = ['tokenize.detect_encoding of the running CPython, applied to a copy with all line breaks translated to \\n (as the compiler does '
+               'before looking for the declaration), is the reference where it succeeds']
 _state = {}
 ALPHA = ['\n', '\r', '\x0b', '\x0c', '\x1c', '\x1d', '\x1e', '\x85', ' ', ' ', 'a', ' ', '#', '\\', '"', '\t', 'é', '\x00', '\x1f']
 
 
 def _ref_decode(b):
-    """-> ('ok', text) | ('skip', why)"""
-    two = b.split(b'\n', 2)[:2]
-    if any(b'\r' in l[:-1] or (l.endswith(b'\r') and i == len(two) - 1 and len(b.split(b'\n', 2)) <= i + 1) for i, l in enumerate(two)):
-        if any(b'\r' in l.rstrip(b'\r') for l in two):
-            return 'skip', 'lone_cr_in_cookie_lines'
+    """-> ('ok', text) | ('skip', why).  CPython translates all line breaks to \\n before it looks for the coding
+    declaration (decode_str -> translate_newlines), while tokenize.detect_encoding reads lines with readline(); so the
+    encoding is determined on a copy with \\r\\n and lone \\r translated, and the *original* bytes are decoded with it."""
+    t = b.replace(b'\r\n', b'\n').replace(b'\r', b'\n')
     try:
-        enc, _ = pytokenize.detect_encoding(io.BytesIO(b).readline)
+        enc, _ = pytokenize.detect_encoding(io.BytesIO(t).readline)
     except SyntaxError:
         return 'skip', 'cpython_cannot_determine_encoding'
     except Exception as e:
         return 'skip', 'detect_encoding_' + type(e).__name__
     try:
         if enc == 'utf-8-sig':
-            return 'ok', '﻿' + b.decode('utf-8-sig')
+            return 'ok', '\ufeff' + b.decode('utf-8-sig')
         return 'ok', b.decode(enc)
     except Exception:
         return 'skip', 'cpython_cannot_decode'
@@ -131,12 +130,12 @@ COOKIES = [b'# -*- coding: utf-8 -*-', b'# coding: latin-1', b'# coding=cp1252',
            b'# coding: big5', b'# coding : latin-1', b'# Coding: latin-1', b'# encoding: latin-1', b'#coding=utf-8-sig', b'pass',
            b'# coding: cp1252 extra', b'# coding: latin-1 # coding: utf-8', b'x = "\xe9"', b'# \xe9 coding: latin-1', b'\\', b'#',
            b'# coding: mbcs', b'# coding: punycode', b'# coding: rot13', b'# coding: utf-7']
-PAYLOADS = [b'', b'x = 1\n', b's = "\xe9"\n', b'\xc3\xa9 = 1\n', b's = "\xff\xfe"\n', b'# \x80\x81\n', b'x = "\xa4"\n', b'\n\n', b'coding: latin-1\n']
+PAYLOADS = [b'', b'x = 1\r# vim: set fileencoding=latin-1 :\rs = "\xc3\xa9"\r', b'# encoding=cp1252\r\xc3\xa9 = 1\r', b'x = 1\n', b's = "\xe9"\n', b'\xc3\xa9 = 1\n', b's = "\xff\xfe"\n', b'# \x80\x81\n', b'x = "\xa4"\n', b'\n\n', b'coding: latin-1\n']
 
 
 def gen_bytes(rng):
     l1, l2 = rng.choice(COOKIES), rng.choice(COOKIES)
-    nl = rng.choice([b'\n', b'\n', b'\r\n', b'\r'])
+    nl = rng.choice([b'\n', b'\n', b'\r\n', b'\r', b'\r'])
     bom = b'\xef\xbb\xbf' if rng.random() < .2 else b''
     r = rng.random()
     if r < .15:
